@@ -9,10 +9,21 @@ From Yv Require Import Common.Base C05.Model.
 Local Open Scope N_scope.
 
 (* ------------------------------------------------- what a pattern denotes *)
+(* the character a range endpoint stands for *)
+Definition Endpoint (a : batom) (c : N) : Prop :=
+  match a with
+  | BChar x => c = x
+  | BColl v => exists r, v = c :: r
+  | BClass _ => False
+  end.
+
+(* one character is a member of an item *)
 Definition ItemHas (i : bitem) (x : N) : Prop :=
   match i with
-  | IChar c => x = c
-  | IRange a b => a <= x /\ x <= b
+  | IAtom (BChar c) => x = c
+  | IAtom (BColl v) => v = [x]
+  | IAtom (BClass name) => exists f, class_pred name = Some f /\ f x = true
+  | IRange a b => exists lo hi, Endpoint a lo /\ Endpoint b hi /\ lo <= x /\ x <= hi
   end.
 
 Definition BracketHas (compl : bool) (items : list bitem) (x : N) : Prop :=
@@ -25,6 +36,11 @@ Inductive Matches : list atom -> str -> Prop :=
 | M_any : forall x p s, Matches p s -> Matches (AAny :: p) (x :: s)
 | M_bracket : forall compl items x p s,
     BracketHas compl items x -> Matches p s -> Matches (ABracket compl items :: p) (x :: s)
+| M_coll : forall items v p s,
+    (* a collating element of two or more characters in a matching list
+       stands for that sequence of characters *)
+    In (IAtom (BColl v)) items -> (2 <= length v)%nat -> Matches p s ->
+    Matches (ABracket false items :: p) (v ++ s)
 | M_star : forall p s1 s2, Matches p s2 -> Matches (AStar :: p) (s1 ++ s2).
 
 (* a period at the beginning of a name is matched only by a period written as
@@ -35,10 +51,23 @@ Definition PeriodOk (p : list atom) (name : str) : Prop :=
 Definition PMatch (p : list atom) (name : str) : Prop := PeriodOk p name /\ Matches p name.
 
 (* boolean form, by enumeration of the split points of `*` *)
+Definition endpoint_of (a : batom) : option N :=
+  match a with
+  | BChar c => Some c
+  | BColl v => hd_error v
+  | BClass _ => None
+  end.
+
 Definition item_has (i : bitem) (x : N) : bool :=
   match i with
-  | IChar c => N.eqb c x
-  | IRange a b => negb (N.ltb x a) && negb (N.ltb b x)
+  | IAtom (BChar c) => N.eqb c x
+  | IAtom (BColl v) => str_eqb v [x]
+  | IAtom (BClass name) => match class_pred name with Some f => f x | None => false end
+  | IRange a b =>
+      match endpoint_of a, endpoint_of b with
+      | Some lo, Some hi => negb (N.ltb x lo) && negb (N.ltb hi x)
+      | _, _ => false
+      end
   end.
 
 Definition atom_has (a : atom) (x : N) : bool :=
@@ -51,11 +80,25 @@ Definition atom_has (a : atom) (x : N) : bool :=
   | AStar => false
   end.
 
+(* the multi-character elements of a matching list *)
+Definition coll_strings (a : atom) : list str :=
+  match a with
+  | ABracket false items =>
+      flat_map (fun i => match i with
+                         | IAtom (BColl v) => if Nat.leb 2 (length v) then [v] else []
+                         | _ => []
+                         end) items
+  | _ => []
+  end.
+
 Fixpoint omatch (p : list atom) (s : str) : bool :=
   match p with
   | [] => match s with [] => true | _ => false end
   | AStar :: p' => existsb (fun k => omatch p' (skipn k s)) (seq 0 (S (length s)))
-  | a :: p' => match s with x :: s' => atom_has a x && omatch p' s' | [] => false end
+  | a :: p' =>
+      match s with x :: s' => atom_has a x && omatch p' s' | [] => false end
+      || existsb (fun v => str_eqb (firstn (length v) s) v && omatch p' (skipn (length v) s))
+                 (coll_strings a)
   end.
 
 Definition pmatchb (p : list atom) (name : str) : bool :=
@@ -89,7 +132,6 @@ Section Spec.
         /\ name <> s_dot /\ name <> s_dotdot /\ PMatch p name
         (* a pattern: an entry of the directory before it, not `.` or `..`,
            that the pattern matches *)
-    | CUnsup => False
     end.
 
   Definition last_is_pat (comps : list (list achar)) : bool :=
@@ -113,7 +155,6 @@ Section Spec.
     | CPat p =>
         match opendir (dir_of prefix) with Some ents => mem name ents | None => false end
         && negb (str_eqb name s_dot) && negb (str_eqb name s_dotdot) && pmatchb p name
-    | CUnsup => false
     end.
 
   Definition names_okb (comps : list (list achar)) (names : list str) : bool :=
@@ -128,7 +169,6 @@ Section Spec.
     match compile_comp c with
     | CLit l => [l]
     | CPat p => filter (pmatchb p) universe
-    | CUnsup => []
     end.
 
   Fixpoint product (ls : list (list str)) : list (list str) :=
@@ -159,7 +199,6 @@ Section Spec.
   Definition oracle (noglob : bool) (field : list achar) (out : outcome) : option N :=
     match out with
     | GPanic => Some 4
-    | GOutOfDomain => Some 4
     | GFields r =>
         if noglob then (if strs_eqb r [unquote field] then None else Some 3)
         else
@@ -232,3 +271,36 @@ Definition dangling_tree : fs :=
   [([[115; 117; 98]], KDir true); ([[115; 117; 98]; [100; 108]], KLink [122; 122])].
 Definition dangling_field : list achar := soft_field [42; 47; 100; 108].
 Definition dangling_path : str := [115; 117; 98; 47; 100; 108].
+
+(* ------------------------------------------------- where pathname expansion happens *)
+(* The places of the shell language where a word is expanded, and whether the
+   result undergoes pathname expansion (POSIX.1-2024 XCU 2.6, 2.6.6 and the
+   sections of the constructs: 2.7 redirection in a non-interactive shell,
+   2.9.1 assignments and declaration utilities, 2.9.4 for / case). *)
+Inductive context :=
+| CxCommandWord          (* args *                         *)
+| CxForList              (* for x in *                     *)
+| CxSetArgs              (* set -- *                       *)
+| CxEvalWord             (* eval 'args *'                  *)
+| CxUnquotedParam        (* v='*'; args $v                 *)
+| CxUnquotedPositional   (* set -- '*'; args $1 / $@ / $*  *)
+| CxUnquotedDefault      (* args ${u:-*}                   *)
+| CxCommandSubst         (* args $(echo '*')               *)
+| CxFunctionArg          (* f() { args $1; }; f '*'        *)
+| CxQuotedParam          (* args "$v"                      *)
+| CxQuotedAt             (* set -- '*'; args "$@"          *)
+| CxQuotedDefault        (* args "${u:-*}"                 *)
+| CxCaseSubject          (* case * in                      *)
+| CxRedirOperand         (* echo hi > *                    *)
+| CxAssignValue          (* v=*                            *)
+| CxAssignDefault        (* : ${d=*}  (the value assigned) *)
+| CxDeclUtilAssign       (* export e=* / readonly r=*      *)
+| CxNoglobCommandWord.   (* set -f; args *                 *)
+
+Definition posix_expands (c : context) : bool :=
+  match c with
+  | CxCommandWord | CxForList | CxSetArgs | CxEvalWord | CxUnquotedParam
+  | CxUnquotedPositional | CxUnquotedDefault | CxCommandSubst | CxFunctionArg => true
+  | CxQuotedParam | CxQuotedAt | CxQuotedDefault | CxCaseSubject | CxRedirOperand
+  | CxAssignValue | CxAssignDefault | CxDeclUtilAssign | CxNoglobCommandWord => false
+  end.
